@@ -93,3 +93,18 @@ Theorem C05_matmul_diag_upper_literal (F : fieldType) sq lt n (x d : vec F) (u :
   qsm_mul (fops sq lt) (Diag n x) (Upper d u) = Some C -> den n C = den n (Diag n x) *m den n (Upper d u).
 Proof. exact: mul_diag_upper_sound. Qed.
 Print Assumptions C05_matmul_diag_upper_literal.
+(* the whole row "diagonal @ any kind" of the literal model: exact, and the same matrix as the uniform form *)
+Theorem C05_matmul_diag_any_literal (F : fieldType) sq lt n (x : vec F) (B C : qsm F) : qwfn n B -> first_row_ok B ->
+  qsm_mul (fops sq lt) (Diag n x) B = Some C -> den n C = den n (Diag n x) *m den n B.
+Proof. exact: mul_diag_any_sound. Qed.
+Theorem C05_matmul_diag_any_literal_agrees (F : fieldType) sq lt n (x : vec F) (B C C' : qsm F) : qwfn n B -> first_row_ok B ->
+  qsm_mul (fops sq lt) (Diag n x) B = Some C -> qsm_mul_u (fops sq lt) (Diag n x) B = Some C' -> den n C = den n C'.
+Proof. exact: mul_diag_any_agrees. Qed.
+Print Assumptions C05_matmul_diag_any_literal.
+Print Assumptions C05_matmul_diag_any_literal_agrees.
+(* non-vacuity: a square operand that meets both premises, and the literal product is defined on it *)
+Example C05_diag_any_example :
+  let Sq := Square [:: 1; 1]%R (MkTri 2 1 [:: [:: 1]; [:: 2]] [:: [:: 1]; [:: 1]] [:: [:: [:: 1]]; [:: [:: 1]]])
+                               (MkTri 2 1 [:: [:: 3]; [:: 1]] [:: [:: 1]; [:: 2]] [:: [:: [:: 1]]; [:: [:: 1]]])%R : qsm rat_fieldType in
+  qwfn 2%N Sq /\ first_row_ok Sq /\ isSome (qsm_mul (fops (fun x => x) (fun _ _ => false)) (Diag 2 [:: 2; 3]%R) Sq).
+Proof. by []. Qed.
